@@ -218,7 +218,8 @@ def analyse_job(job):
                     ctx.args[nm] = ctx.argterms[k]
             S = I.summarise(inst.fname, ctx.argterms, ctx.boolmem)
             ctx.summary = S
-            if getattr(inst, "optional", False) and any(
+            ctx.module = m
+            if getattr(inst, "optional", False) and not job.get("override") == "judge_parity" and any(
                     nm.startswith("_ZN4avel") and m["functions"].get(nm, {}).get("decl") for nm, _a, _l in S.calls):
                 continue        # operation declared but not provided for this type pair
             for u in S.unknown:
@@ -275,12 +276,12 @@ def analyse_job(job):
     return {"res": out, "unknown": unknown}
 
 
-def run_families(res, cfgs, families, type_filter=None, override=None, keytag=None, ubmode=False):
+def run_families(res, cfgs, families, type_filter=None, override=None, keytag=None, ubmode=False, tier=None):
     e3.ensure_tools()
     PROP[0] = res.prop
     OVERRIDE[0] = override
     UBMODE[0] = ubmode
-    jobs = build_tus(cfgs, families, type_filter, tier=res.tier)
+    jobs = build_tus(cfgs, families, type_filter, tier=tier or res.tier)
     # identical IR across configurations is analysed once
     results = procmap(analyse_job, jobs)
     unknown = {}
